@@ -106,6 +106,20 @@ Theorem C06_run_can_finish : forall (A : Type) (enc : A -> option (list N)) (k :
 Proof. exact run_can_finish. Qed.
 Print Assumptions C06_run_can_finish.
 
+(* The executable specification the check evaluates on the IMPLEMENTATION's observations
+   (complete_b: every line a reported sample, at most once, each reporter's samples in its
+   order; lines + drops = reports; error = drop count; no drops for phout) accepts everything
+   C06_queue_complete guarantees. Samples are numbers, [owner] maps a sample to its reporter. *)
+Theorem C06_spec_sound : forall (enc : N -> option (list N)) k Q owner G h s,
+  run N enc k Q (init N) h = Some s ->
+  reports_first N false h = true ->
+  Forall (enc_ok N enc) (reports_of N h) ->
+  ph s = Done ->
+  Forall (fun x => owner x < N.of_nat G) (reports_of N h) ->
+  complete_b k owner (by_owner owner G (reports_of N h)) (acc_log s) (dropped s) (run_error N s) = true.
+Proof. exact queue_complete_spec. Qed.
+Print Assumptions C06_spec_sound.
+
 (* The ordering hypothesis is necessary: a Report completing after Run returned is neither
    written nor counted. *)
 Theorem C06_late_report_is_lost :
